@@ -24,7 +24,7 @@ def gen_cases(tier, seed, salt):
         st = structs[int(sub.integers(len(structs)))]
         spec = S.gen_spec(sub, structure=st, fams=["weibull", "lognormal", "lnnf", "expweib", "gengamma", "normal"], allow_hostile=True)
         alpha = float(10 ** sub.uniform(-6, math.log10(0.3)))
-        modes_ = ["explicit", "explicit", "explicit", "too-small", "default-limits" if not three else "explicit", "bimodal" if not three else "explicit", "near-miss" if not three else "too-small", "near-miss" if not three else "explicit", "modes-side-by-side" if not three else "explicit", "four-modes" if not three else "explicit", "tiny-second-region" if not three else "explicit", "default-limits-mass-below-zero" if not three else "explicit", "warning-sequence" if not three else "too-small", "oblique-ridge" if not three else "explicit", "few-cells", "integer-first-axis" if not three else "explicit"]
+        modes_ = ["explicit", "explicit", "explicit", "too-small", "default-limits" if not three else "explicit", "bimodal" if not three else "explicit", "near-miss" if not three else "too-small", "near-miss" if not three else "explicit", "modes-side-by-side" if not three else "explicit", "four-modes" if not three else "explicit", "tiny-second-region" if not three else "explicit", "default-limits-mass-below-zero" if not three else "explicit", "warning-sequence" if not three else "too-small", "oblique-ridge" if not three else "explicit", "few-cells", "integer-first-axis" if not three else "explicit", "direction-full-circle" if not three else "explicit"]
         _ = sub.choice(modes_)  # (keeps the random stream of the earlier versions)
         mode = str(modes_[(k if not three else k - n2) % len(modes_)])  # every mode in every run, not a random draw
         if mode == "near-miss":
@@ -128,6 +128,10 @@ def run(case, ctx, which):
         alpha = float(rng.uniform(0.005, 0.1))
     if case["mode"] == "warning-sequence":
         return run_sequence(case, ctx, which, rng)
+    if case["mode"] == "direction-full-circle":
+        # a direction (von Mises) whose grid covers the whole circle, with a wave height conditional on it
+        spec = {"dims": [{"fam": "vonmises", "params": {"kappa": float(rng.uniform(0.8, 4.0)), "mu": float(rng.uniform(-0.6, 0.6))}}, {"fam": "weibull", "cond": 0, "params": {"alpha": {"shape": "linear2", "coef": [2.5, 0.3]}, "beta": float(rng.uniform(1.5, 2.5)), "gamma": 0.0}}]}
+        alpha = float(10 ** rng.uniform(-2.5, -0.7))
     if case["mode"] == "integer-first-axis":
         # limits and cell size of the first variable given as Python ints (whole metres), the second as floats
         spec = {"dims": [{"fam": "weibull", "params": {"alpha": float(rng.uniform(5.0, 8.0)), "beta": float(rng.uniform(1.6, 2.4)), "gamma": 0.0}}, {"fam": "lognormal", "cond": 0, "params": {"mu": {"shape": "power3", "coef": [1.0, 0.2, 0.6]}, "sigma": float(rng.uniform(0.15, 0.3))}}]}
@@ -178,7 +182,10 @@ def run(case, ctx, which):
         kw["deltas"] = [d0, float(hi1) / n1]
         ctx.cls("shortfall/alpha", u)
     elif case["mode"] not in ("default-limits", "default-limits-mass-below-zero"):
-        if case["mode"] == "integer-first-axis":
+        if case["mode"] == "direction-full-circle":
+            lims = [[(-math.pi, math.pi), (0.0, 2 * math.pi)][int(case["sub"]) % 2], (0.0, 14.0)]
+            case = {**case, "ncell": [int(rng.integers(40, 90)), int(rng.integers(40, 90))], "delta_form": "list"}
+        elif case["mode"] == "integer-first-axis":
             hi1_ = float(ref.dim_range(1, eps=alpha * 1e-3)[1])
             lims = [(0, int(math.ceil(float(ref.dim_range(0, eps=alpha * 1e-3)[1])))), (0.0, hi1_)]
             kw["limits"] = lims
